@@ -302,6 +302,22 @@ def attribute(scen, rec, f, fail):
             and any(op[0] == "shutdown" for u in scen["users"] for op in u) and len(scen["users"]) > 1:
         # get_reusable_executor resizing an executor that another thread's explicit shutdown() is closing
         return "D19"
+    if fail[1] in ("api-hang", "future-unresolved", "maxsteps", "livelock"):
+        # a resize requested from a done-callback, i.e. from the manager thread, that waits for something only that
+        # thread can deliver: other jobs in flight, or workers that have to leave (their exit messages are read by the
+        # manager).  Growing the pool with nothing else in flight is NOT in this class.
+        exs = rec["final"]["ex"]
+        for r in rec.get("cb_resizes", []):
+            # (workers that have to leave: also when another thread resized the pool between the callback's start and
+            #  its turn at the module lock - judged on the final state: jobs submitted meanwhile, more registered workers than asked for, or a
+            #  registered worker that has exited and whose exit message only the manager could read)
+            leaving = any(e["nproc"] > r["mw"] or len(e["alive_pids"]) < e["nproc"] or e["pending"] > 0 for e in exs[-1:])
+            if not r["returned"] and str(r.get("thread", "")).startswith("M") and not r.get("own_in_table") and \
+                    (r.get("pending_others", 0) > 0 or r["mw"] < r.get("registered", 0) or leaving or
+                     str(blocked.get(r["thread"], "")).startswith("acquire(execlock")):
+                # (third case: the callback waits for the module lock that another thread holds while that thread's own
+                #  resize waits for the jobs - which only the blocked manager thread can complete)
+                return "D26"
     if fail[0] in ("C01", "C02", "C05", "C06") and fail[1] in ("api-hang", "future-unresolved", "manager-left-behind",
                                                            "worker-left-behind", "survivors", "not-flagged", "future-hangs",
                                                            "maxsteps", "livelock", "needs-task-progress"):
@@ -389,7 +405,7 @@ def c09(scen, rec, f):
     last_id = -1
     for c in sorted(rec.get("reuse_calls", []), key=lambda c: c["t1"]):
         a, b, r = c["args"], c["before"], c["after"]
-        single = len(scen["users"]) == 1
+        single = len(scen["users"]) == 1 and not rec.get("cb_resizes")     # one requester at a time
         want_mw = a.get("max_workers") or (b["mw"] if (a.get("reuse") is True and b) else scen.get("cpu_count", 2))
         if single and r["mw"] != want_mw:
             out.append(("C09", "wrong-size", f"asked for max_workers={want_mw}, executor has {r['mw']} ({c})"))
@@ -412,6 +428,14 @@ def c09(scen, rec, f):
                 prev_alive = [n for n in rec["final"]["alive"] if int(n[1:]) in b["pids"]]
                 if prev_alive and rec["end"] == "quiescent":
                     out.append(("C09", "previous-not-shut-down", f"workers of the replaced executor still alive: {prev_alive}"))
+        if single and "cfg" in r and (b is None or r["id"] != b["id"]) and r["id"] > last_id:
+            # a fresh instance is built from the arguments of THIS call, and that is what the module remembers of it
+            if r["cfg"] != r["want_cfg"]:
+                out.append(("C09", "fresh-not-from-new-arguments", f"the fresh executor (id {r['id']}) is configured {r['cfg']}, "
+                            f"the call asked for {r['want_cfg']} ({c['args']})"))
+            elif r.get("stored") != r["want_cfg"]:
+                out.append(("C09", "fresh-not-from-new-arguments", f"after handing out a fresh executor (id {r['id']}) built from "
+                            f"{r['want_cfg']} the module remembers the arguments {r.get('stored')} ({c['args']})"))
         if r.get("stale_live"):
             # (any number of calling threads) a fresh instance was handed out while an earlier one still had a
             # running manager thread or live workers
@@ -433,15 +457,24 @@ def c09(scen, rec, f):
 def c10(scen, rec, f):
     """a resize preserves work and surviving workers and returns with the requested size"""
     out = []
-    if len(scen["users"]) != 1:
-        return out
+    if len(scen["users"]) != 1 or rec.get("cb_resizes"):
+        return out          # (several requesters - threads, or a done-callback: sizes are sampled outside the module lock)
     for c in rec.get("reuse_calls", []):
         a, b, r = c["args"], c["before"], c["after"]
-        if b is None or r["id"] != b["id"] or c["faults_during"] or f["crashes"] or f["timeouts"]:
+        if b is None or r["id"] != b["id"]:
             continue
         new = r["mw"]
-        if not b["started"]:
-            continue            # never started: only the number is recorded
+        if not b["started"] or b["mw"] == new:
+            continue            # never started: only the number is recorded; same size: not a resize (an idle pool
+                                # below its size is topped up by the next submit)
+        head = rec["trace"][:c["t1"]]
+        # deaths before the return; idle time-outs of workers that were still registered when the call began, or of any
+        # worker during the call (those may be leaving at any moment: only termination is demanded then)
+        died = any(v == "crash" for _, v, _ in head) or any(e[1] in ("CRASH", "DIE") and e[3] <= c["t1"] for e in rec["events"])
+        tmo_reg = any(v == "timeout" and x.startswith("W") and int(x[1:]) in b["pids"] for x, v, _ in head)
+        tmo_win = any(v == "timeout" and x.startswith("W") for x, v, _ in rec["trace"][c["t0"]:c["t1"]])
+        if died or tmo_reg or tmo_win or r["broken"] or r["shutdown"] or b["broken"] or b["shutdown"]:
+            continue
         if len(r["pids"]) != new or len(r["alive"]) != new:
             out.append(("C10", "wrong-size-at-return", f"resize {b['mw']}->{new}: {len(r['pids'])} registered, {len(r['alive'])} alive ({c})"))
         kept = len(set(r["pids"]) & set(b["pids"]))
